@@ -1,5 +1,8 @@
 import Chess.Lemmas.Refine
 import Chess.Lemmas.Reach
+import Chess.Lemmas.FnsEquiv.GameState
+import Chess.Lemmas.FnsEquiv.Position
+import Chess.Lemmas.FnsEquiv.PositionAdd
 
 /-!
 # C02 — playing a move produces the position the rules prescribe
@@ -75,3 +78,22 @@ end Chess.Props.C02
 #print axioms Chess.Props.C02.en_passant_recorded_iff
 #print axioms Chess.Props.C02.right_lost_when_rook_home_is_taken
 #print axioms Chess.Props.C02.text_agrees
+
+/-! ### Translation tie (C02.T)
+`tools/translate.py` regenerates `Chess/Gen/Fns.lean` from the Rust text of the leaf functions on every run (a
+parser, not patterns); the theorems below — proved in `Chess/Lemmas/FnsEquiv/*` and re-checked by the kernel whenever
+the generated term changes — say that the TRANSLATED code equals the hand-written model this file's theorems are
+about, for the state byte (en-passant nibble, the four castling bits: every getter and setter of `gamestate.rs`) and the rook home squares. A rewrite of the Rust text that keeps the meaning leaves them true; one that changes it breaks the
+theorem named after the function. -/
+#print axioms Chess.FnsEquiv.GameState_en_passant_eq
+#print axioms Chess.FnsEquiv.GameState_set_en_passant_eq
+#print axioms Chess.FnsEquiv.GameState_white_king_castling_eq
+#print axioms Chess.FnsEquiv.GameState_white_queen_castling_eq
+#print axioms Chess.FnsEquiv.GameState_black_king_castling_eq
+#print axioms Chess.FnsEquiv.GameState_black_queen_castling_eq
+#print axioms Chess.FnsEquiv.GameState_set_white_king_castling_false_eq
+#print axioms Chess.FnsEquiv.GameState_set_white_queen_castling_false_eq
+#print axioms Chess.FnsEquiv.GameState_set_black_king_castling_false_eq
+#print axioms Chess.FnsEquiv.GameState_set_black_queen_castling_false_eq
+#print axioms Chess.FnsEquiv.Position_add_eq
+#print axioms Chess.FnsEquiv.Position_ROOKS_eq
